@@ -336,7 +336,13 @@ struct sp_it {
     void fresh() const { if (*cur != p) g_multipass = true; }
     reference operator*() const { fresh(); return *p; }
     pointer operator->() const { fresh(); return p; }
-    sp_it& operator++() { fresh(); ++p; *cur = p; return *this; }
+    sp_it& operator++()
+    {
+        if (*cur != p) { g_multipass = true; p = *cur; return *this; } // the stream has moved on: the copy lands where the stream is
+        ++p;
+        *cur = p;
+        return *this;
+    }
     struct post { T* q; T& operator*() const { return *q; } }; // `*r++` is all that an input iterator promises
     post operator++(int) { post r{p}; ++*this; return r; }
     friend bool operator==(sp_it const& a, sp_it const& b) { return a.p == b.p; }
